@@ -11,6 +11,7 @@
 //         log : bit 0 info, bit 1 debug, bit 2 benchmark, bit 3 warning OFF  (mutates the Logging singleton)
 //       -> ok Y=<row;row;..> pre=<row;row;..> rhs=<..|-> ev=<full spectrum of the observed problem> sel=<selected>
 //          skip=<s> gen=<0|1> nobs=<eigen calls seen> | exc:<class>
+//   knn nm=.. k=.. sh=.. X=..      -> tapkee_internal::find_neighbors: per sample the sorted neighbour distances
 //   conn nb=1,2;0,2;0,1           -> tapkee_internal::is_connected on the given neighbour lists      -> 1 | 0
 //   center n=4 A=a,b,..;..  sh=e   -> tapkee_internal::centerMatrix                                    -> rows
 //   trip n=4 T=i:j:v,i:j:v,...     -> tapkee_internal::sparse_matrix_from_triplets (dense rows)        -> rows
@@ -285,6 +286,45 @@ std::string do_embed(std::map<std::string, std::string>& f)
     return s;
 }
 
+// the neighbour search alone (internal entry point tapkee_internal::find_neighbors, check_connectivity off):
+// per sample the ascending list of the distances to its returned neighbours — determined by the pairwise distances
+// alone (also under ties), hence permutation-equivariant, rigid-motion invariant, scale covariant and the same for
+// all three search methods
+std::string do_knn(std::map<std::string, std::string>& f)
+{
+    int sh = f.count("sh") ? std::stoi(f["sh"]) : 0;
+    DenseMatrix X = parse_points(f["X"], sh);
+    IndexType N = X.cols();
+    std::vector<IndexType> idx(N);
+    for (IndexType i = 0; i < N; i++)
+        idx[i] = i;
+    NeighborsMethod nm = Brute;
+    if (f["nm"] == "vptree")
+        nm = VpTree;
+    else if (f["nm"] == "covertree")
+        nm = CoverTree;
+    if (f.count("seed"))
+        std::srand((unsigned)std::stoul(f["seed"]));
+    distance_cb dcb{&X, f["metric"] == "l1" ? 1 : 0};
+    typedef std::vector<IndexType>::iterator It;
+    tapkee_internal::PlainDistance<It, distance_cb> pd(dcb);
+    tapkee_internal::Neighbors nb =
+        tapkee_internal::find_neighbors(nm, idx.begin(), idx.end(), pd, (IndexType)std::stoi(f["k"]), false);
+    std::string out;
+    for (size_t i = 0; i < nb.size(); i++)
+    {
+        std::vector<double> ds;
+        for (auto j : nb[i])
+            ds.push_back(dcb.distance((IndexType)i, j));
+        std::sort(ds.begin(), ds.end());
+        if (i)
+            out += ";";
+        for (size_t t = 0; t < ds.size(); t++)
+            out += (t ? "," : "") + vh::num(ds[t]);
+    }
+    return out;
+}
+
 std::string do_conn(std::map<std::string, std::string>& f)
 {
     tapkee_internal::Neighbors nb;
@@ -350,6 +390,8 @@ int main()
         {
             if (line.rfind("emb ", 0) == 0)
                 out = do_embed(f);
+            else if (line.rfind("knn ", 0) == 0)
+                out = do_knn(f);
             else if (line.rfind("conn ", 0) == 0)
                 out = do_conn(f);
             else if (line.rfind("center ", 0) == 0)
